@@ -558,10 +558,15 @@ def search_direction(ctx):
     seen = set()
     for rel in (PARSER_REL, "treebuilders/base.py"):
         for f in ctx.repo.module(rel).all_functions:
+            searches = []
             for lp in walk_no_nested(f.node):
-                if not isinstance(lp, ast.For):
-                    continue
-                it = lp.iter
+                if isinstance(lp, ast.For):
+                    searches.append((lp, lp.iter, any(isinstance(x, (ast.Break, ast.Return)) for s_ in lp.body for x in ast.walk(s_))))
+                # next((x for x in SEQ if cond), default): a first-match search written as a generator
+                elif isinstance(lp, ast.Call) and norm(lp.func) == "next" and lp.args and isinstance(lp.args[0], ast.GeneratorExp) and \
+                        len(lp.args[0].generators) == 1:
+                    searches.append((lp, lp.args[0].generators[0].iter, True))
+            for lp, it, first_match in searches:
                 direction = "forward"
                 base = it
                 if isinstance(it, ast.Call) and norm(it.func) == "reversed" and it.args:
@@ -577,7 +582,6 @@ def search_direction(ctx):
                     continue
                 if which not in ("openElements", "activeFormattingElements", "self"):
                     continue
-                first_match = any(isinstance(x, (ast.Break, ast.Return)) for s in lp.body for x in ast.walk(s))
                 if not first_match:
                     continue
                 key = (f.qual, which)
@@ -1480,6 +1484,29 @@ def missing_steps(ctx):
                     "fragment set-up never sets the form element pointer: parseFragment('<form id=inner><input></form>x', container='form') "
                     "creates a nested form element; with a form context element the standard has a non-null pointer, so the inner "
                     "<form> start tag is ignored")])
+    # C01.12 (conditional switch): "if the parser was not created as part of the HTML fragment parsing algorithm, and the current
+    # node is no longer a frameset element, then switch the insertion mode to 'after frameset'" -- both conditions
+    ff = repo.func("html5parser.py", "InFramesetPhase.endTagFrameset")
+    fcfg = CFG(ff.node)
+    sw = [n for n in fcfg.stmt_nodes() if n.kind == "stmt" and isinstance(n.ast, ast.Assign) and norm(n.ast.targets[0]) == "self.parser.phase"
+          and "afterFrameset" in norm(n.ast.value)]
+    if len(sw) != 1:
+        r.idiom("C01.12", False, "conditional-switch[inFrameset </frameset> -> afterFrameset]", ff.where, "the switch to 'after frameset' was not found")
+    else:
+        def frag_guard(n, lab):
+            if n.kind != "test":
+                return False
+            t = norm(n.ast)
+            return "innerHTML" in t and ((t.startswith("not ") and lab is True) or (not t.startswith("not ") and lab is False))
+        def node_guard(n, lab):
+            return n.kind == "test" and "openElements[-1].name" in norm(n.ast) and "'frameset'" in norm(n.ast) and \
+                (("!=" in norm(n.ast) and lab is True) or ("==" in norm(n.ast) and lab is False))
+        g1, g2 = fcfg.dominated_by(sw[0], frag_guard), fcfg.dominated_by(sw[0], node_guard)
+        r.check("C01.12", g1 and g2, "conditional-switch[inFrameset </frameset> -> afterFrameset]", "html5parser.py:%d" % sw[0].lineno,
+                "after </frameset> the parser switches to 'after frameset' %s: in a fragment whose context element is frameset (or html) the "
+                "root is the current node after a nested </frameset>, the switch happens and a following <frame> / <frameset> is dropped"
+                % ("without the 'not the fragment case' condition" if not g1 else "without testing that the current node is no longer a frameset"),
+                detail={"fragment_guard": g1, "current_node_guard": g2})
     ef = repo.func("html5parser.py", "InBodyPhase.endTagFormatting")
     first_loop = next((st for st in ef.node.body if isinstance(st, ast.While)), None)
     before = []
@@ -1558,6 +1585,7 @@ def thorough(ctx):
 def mutants():
     from ..selftest import TextMutant as T
     return [
+        T("frameset-switch-in-fragment", "html5parser.py", "        if (not self.parser.innerHTML and\n                self.tree.openElements[-1].name != \"frameset\"):", "        if self.tree.openElements[-1].name != \"frameset\":", "C01.12"),
         T("aaa-step2-dropped", "html5parser.py", "        currentNode = self.tree.openElements[-1]\n        if (currentNode.name == token[\"name\"] and\n                currentNode.namespace == self.tree.defaultNamespace and\n                currentNode not in self.tree.activeFormattingElements):\n            self.tree.openElements.pop()\n            return\n", "", "C01.22"),
         T("row-context-name-only", "html5parser.py", "        while (self.tree.openElements[-1].namespace != self.tree.defaultNamespace or\n               self.tree.openElements[-1].name not in (\"tr\", \"html\")):", "        while self.tree.openElements[-1].name not in (\"tr\", \"html\"):", "C01.19"),
         T("intable-table-reprocess-unless-fragment", "html5parser.py", "        ignoreEndTag = not self.tree.elementInScope(\"table\", variant=\"table\")\n        self.parser.phase.processEndTag(impliedTagToken(\"table\"))\n        if not ignoreEndTag:\n            return token",
